@@ -489,16 +489,20 @@ def _mk(e, s, a):
 @unit("C16", "_types:RenderArgs.convert")
 def u_convert(ctx):
     obs = []
-    for rel in ("same", "target-is-child", "target-is-parent", "unrelated"):
-        eng = ctx.engine(f"C16/RenderArgs.convert[{rel}]", "C16")
+    for rel, tgt_has_args in [(r, True) for r in ("same", "target-is-child", "target-is-parent", "unrelated")] + [("target-is-parent", False), ("same", False)]:
+        eng = ctx.engine(f"C16/RenderArgs.convert[{rel}{'' if tgt_has_args else ',target-without-render-arguments'}]", "C16")
         eng.default_replay = "C16.construct"
         st = State()
         eng.genv["RenderArgs"] = ClassV("RenderArgs")
         own = st.new("rcls", {"cid": 1, "__name__": "Own"})
         keep, drop = st.new("rcls", {"cid": 10}), st.new("rcls", {"cid": 11})
-        tgt = own if rel == "same" else st.new("rcls", {"cid": 2, "__name__": "Tgt", "_ALL_DEFAULT_ARGS": frozenset([keep])})
+        tgt_args = frozenset([keep]) if tgt_has_args else frozenset()
+        tgt = own if rel == "same" else st.new("rcls", {"cid": 2, "__name__": "Tgt", "_ALL_DEFAULT_ARGS": tgt_args})
+        # the interned set of the root class: an existing object of ANOTHER class - never a valid result of a conversion to `tgt`
+        root = st.new("rcls", {"cid": 0, "__name__": "Renderable", "_ALL_DEFAULT_ARGS": frozenset()})
+        eng.genv["BASE_RENDER_ARGS"] = st.new("RenderArgs", {"render_cls": root, "_namespaces": st.new("dict", {"@items": {}})})
         if rel == "same":
-            st.H(own)["_ALL_DEFAULT_ARGS"] = frozenset([keep])
+            st.H(own)["_ALL_DEFAULT_ARGS"] = tgt_args
         issub = lambda x, y: x is y or (rel == "target-is-child" and x is tgt and y is own) or (rel == "target-is-parent" and x is own and y is tgt)
         eng.genv["issubclass"] = Fn(lambda e, s, a, k: [(issub(a[0], a[1]), s)])
         ns_keep, ns_drop = st.new("ArgsNamespace", {"nsid": 1}), st.new("ArgsNamespace", {"nsid": 2})
@@ -518,7 +522,7 @@ def u_convert(ctx):
                 ok = built == (tgt, self_)
             else:
                 # to a parent: only the namespaces of classes the parent knows are carried over
-                ok = built == (tgt, ns_keep)
+                ok = built == ((tgt, ns_keep) if tgt_has_args else (tgt,))
             eng.oblige("conversion=same-object|child:init-from-self|parent:namespaces-the-parent-has", s, And(rel != "unrelated", ok), kind="post")
         obs += eng.obligations
     return obs
@@ -576,6 +580,74 @@ def u_eq_hash(ctx):
             continue
         eng.oblige("equal-sets-hash-equal", s, Implies(val, hs["a"] == hs["b"]), kind="post")
         eng.oblige("equality=same-class-and-equal-namespaces", s, to_z3(val) == z3.And(c1 == c2, m1 == m2) if is_sym(val) else z3.BoolVal(bool(val)) == z3.And(c1 == c2, m1 == m2), kind="post")
+    return eng.obligations
+
+
+@unit("C16", "_types:RenderArgs.__eq__/__hash__")
+def u_eq_hash_objects(ctx):
+    """The same law on sets whose mappings are spelled out (two classes with namespaces): the constituent namespaces are objects with
+    an identity and a value - identical objects are equal, equal objects need not be identical, and either set may hold the class's
+    shared default object or a distinct object equal to it.  Whatever __hash__ looks at (values, identities, the defaults table),
+    equal sets must hash equal."""
+    eng = ctx.engine("C16/RenderArgs.__eq__/__hash__[objects]", "C16")
+    eng.default_replay = "C16.construct"
+    st = State()
+    eng.classes["RenderArgs"] = ()
+    eng.genv["RenderArgs"] = ClassV("RenderArgs")
+    HASH1 = z3.Function("py_hash1", I, I)
+    PAIR = z3.Function("py_tuple_cons", I, I, I)
+    oids = {n: z3.Int(f"object_{n}") for n in ("a1", "a2", "b1", "b2", "d1", "d2")}
+
+    def ns(n):
+        return Rec("ArgsNamespace", {"id": VALOF(oids[n]), "oid": oids[n]})
+    K1, K2 = st.new("rcls", {"cid": 10, "__name__": "K1"}), st.new("rcls", {"cid": 11, "__name__": "K2"})
+    defaults = st.new("dict", {"@items": {K1: ns("d1"), K2: ns("d2")}})
+    rc = st.new("rcls", {"cid": 1, "__name__": "C", "_ALL_DEFAULT_ARGS": defaults})
+    a = st.new("RenderArgs", {"render_cls": rc, "_namespaces": st.new("dict", {"@items": {K1: ns("a1"), K2: ns("a2")}})})
+    b = st.new("RenderArgs", {"render_cls": rc, "_namespaces": st.new("dict", {"@items": {K1: ns("b1"), K2: ns("b2")}})})
+
+    def enc(v, s):
+        if isinstance(v, tuple):
+            acc = z3.IntVal(len(v))
+            for x in v:
+                acc = PAIR(acc, enc(x, s))
+            return acc
+        if isinstance(v, Rec) and v.name == "ArgsNamespace":
+            return v.f["id"]                    # hash(namespace) is a function of its value (proved by the namespace unit)
+        if isinstance(v, Ref) and v.cls == "rcls":
+            return z3.IntVal(1000) + to_z3(s.H(v)["cid"])
+        if isinstance(v, Ref) and v.cls in ("list", "tuple"):
+            return enc(tuple(eng.iter_concrete(v, s)), s)
+        if isinstance(v, (int, bool)) or is_sym(v):
+            return to_z3(v)
+        raise Unsupported(f"hash of {v!r}")
+    eng.genv["hash"] = Fn(lambda e, s, a_, k: [(HASH1(enc(a_[0], s)), s)])
+    orig_eq = eng.eq
+
+    def eq(x, y, s=None):
+        if isinstance(x, Rec) and isinstance(y, Rec) and x.name == y.name == "ArgsNamespace":
+            return x.f["id"] == y.f["id"]
+        return orig_eq(x, y, s)
+    eng.eq = eq
+    hs = {}
+    for nm, obj in (("a", a), ("b", b)):
+        s0 = st.fork()
+        s0.env["self"] = obj
+        hs[nm] = [(val, s) for kind, val, s in run_function(eng, ctx.fn(TY, "RenderArgs.__hash__"), s0) if kind == "return"]
+    s0 = st.fork()
+    s0.env.update(self=a, other=b)
+    for kind, val, s in run_function(eng, ctx.fn(TY, "RenderArgs.__eq__"), s0):
+        if kind != "return":
+            eng.oblige("no-exception", s, False, kind="raise")
+            continue
+        eng.cover("distinct-objects-can-be-equal-sets", s, And(val, oids["a1"] != oids["b1"], oids["a1"] != oids["d1"], oids["b1"] == oids["d1"]))
+        # every pair of hash paths (they split on identities when __hash__ looks at them)
+        for ha, sa in hs["a"]:
+            for hb, sb in hs["b"]:
+                s2 = s.fork()
+                s2.pc += [c for c in sa.pc + sb.pc]
+                eng.oblige("equal-sets-hash-equal(also-when-one-holds-the-shared-default-object-and-the-other-an-equal-one)", s2,
+                           Implies(val, ha == hb), kind="post")
     return eng.obligations
 
 
